@@ -118,3 +118,26 @@ def lin_judge(work, rep, trace, nproc, name="lin"):
         rejected.append(j)
         lines = [l for l in lines if json.loads(l).get("run") != j["run"]]
     return rejected
+
+
+def ops_trace_validate(work, rep, trace, scen, db, store, name="opsval"):
+    """Trace_Ops: the recorded storage calls of the gated runs of one (scenario, store) must be behaviours of WitnessOps"""
+    prefix = scen + "-"
+    lines = [l for l in open(trace) if ('"run":"%s' % prefix) in l and '"run":"%sx-' % scen not in l and '"run":"%si-' % scen not in l]
+    if not lines:
+        return None
+    p = work.path("opsval-%s-%s.ndjson" % (scen, store))
+    open(p, "w").writelines(lines)
+    c = ops_consts(scen, db, store)
+    c["TraceFile"] = p
+    r = tlc(work, "MC_Trace_Ops", cfg_text(spec="TSpec", constants=c, constraints=["HighWater"], postcondition="Accepted"), name="%s-%s-%s" % (name, scen, store),
+            workers=1, timeout=1800, deque=True, heap="8g")
+    os.remove(p)
+    rej = r.prints("REJECTED")
+    nruns = sum(1 for l in lines if l.startswith('{"e":"reset"'))
+    if rej:
+        j = json.loads(rej[0])
+        return {"scenario": scen, "store": store, "runs": nruns, "accepted": False, "rejected_at": j}
+    if not r.ok:
+        raise Inconclusive("Trace_Ops failed on %s/%s: %s\n%s" % (scen, store, r.error or r.violated, r.out[-2500:]))
+    return {"scenario": scen, "store": store, "runs": nruns, "accepted": True}
